@@ -1097,6 +1097,22 @@ fn os_thread_asleep(os_tid: i32) -> bool {
     }
 }
 
+/// True if every thread of this process except the caller is asleep in the kernel. (A thread that is merely *starved* -
+/// runnable but off the CPU on an overloaded machine - may be the one that holds what the baton holder waits for, e.g.
+/// a lock of the allocator: then progress needs no intervention, only patience.)
+fn all_other_os_threads_asleep() -> bool {
+    let me = unsafe { libc::syscall(libc::SYS_gettid) } as i32;
+    let Ok(dir) = std::fs::read_dir("/proc/self/task") else { return false };
+    for e in dir.flatten() {
+        let Some(tid) = e.file_name().to_str().and_then(|s| s.parse::<i32>().ok()) else { continue };
+        if tid != me && !os_thread_asleep(tid) {
+            // (a thread that has just exited reads as "not asleep": look again at the next sample)
+            return false;
+        }
+    }
+    true
+}
+
 /// One process-wide monitor thread: when a run makes no scheduling step for a while although a simulated thread holds
 /// the baton, and that thread is asleep in the kernel, it is blocked in something the simulator does not own (a lock
 /// without a shim: held by a descheduled simulated thread, or taken twice by this one). The real world would simply run
@@ -1129,7 +1145,7 @@ fn start_monitor() {
                     continue;
                 }
                 let cur = st.current;
-                if !matches!(st.threads[cur].status, Status::Runnable) || st.threads[cur].os_tid == 0 || !os_thread_asleep(st.threads[cur].os_tid) {
+                if !matches!(st.threads[cur].status, Status::Runnable) || st.threads[cur].os_tid == 0 || !os_thread_asleep(st.threads[cur].os_tid) || !all_other_os_threads_asleep() {
                     asleep_samples = 0;
                     continue;
                 }
